@@ -166,11 +166,23 @@ func (b *Built) declFiles() []string {
 }
 
 // runCLI runs the generator once with the given files (base names) in the user package dir.
-func (b *Built) runCLI(files ...string) pipe.Result {
+func (b *Built) runCLI(files ...string) pipe.Result { return b.runCLIFor(time.Minute, files...) }
+
+func (b *Built) runCLIFor(limit time.Duration, files ...string) pipe.Result {
 	args := append([]string{b.ctx.Snap.CLI}, files...)
-	r := pipe.Run(pipe.Cmd{Dir: b.L.AppDir, Env: b.ctx.goEnv(), Args: args, Timeout: 2 * time.Minute})
+	r := pipe.Run(pipe.Cmd{Dir: b.L.AppDir, Env: b.ctx.goEnv(), Args: args, Timeout: limit})
 	b.CLI = append(b.CLI, r)
 	return r
+}
+
+// sources returns the declaration files of the case as text.
+func (b *Built) sources() string {
+	var sb strings.Builder
+	for _, f := range b.declFiles() {
+		src, _ := os.ReadFile(filepath.Join(b.L.AppDir, f))
+		sb.WriteString("--- " + f + "\n" + string(src) + "\n")
+	}
+	return sb.String()
 }
 
 func bandName(f string) string { return strings.TrimSuffix(f, ".go") + "_band.go" }
